@@ -534,6 +534,9 @@ func lowerBound(v ssa.Value, facts *pfFacts, seen map[ssa.Value]bool) (int64, bo
 		if lo, _, ok := apiRange(x); ok {
 			return lo, true
 		}
+		if lo, _, ok := moduleRange(x, 0); ok {
+			return lo, true
+		}
 		if _, ok := indexAPI(x); ok {
 			return -1, true
 		}
@@ -587,10 +590,25 @@ func lowerBound(v ssa.Value, facts *pfFacts, seen map[ssa.Value]bool) (int64, bo
 		// min over entry edges; edges that are (phi + positive const) keep the bound
 		min := int64(0)
 		have := false
-		for _, e := range x.Edges {
+		for i, e := range x.Edges {
 			t := termOf(e)
 			if t.base == ssa.Value(x) && t.k >= 0 {
 				continue
+			}
+			// a decrement taken only where the counter is known to be large enough: phi - k under phi ≥ k stays ≥ 0
+			if t.base == ssa.Value(x) && t.k < 0 && facts != nil && facts.ctx != nil {
+				pf := newPFFacts()
+				pf.absorb(facts.ctx, Facts(facts.ctx, x.Parent()).At(x.Block().Preds[i]), 0)
+				if lb, ok := pf.lb[ssa.Value(x)]; ok && lb >= -t.k {
+					if !have || 0 < min {
+						if !have {
+							min, have = 0, true
+						} else if min > 0 {
+							min = 0
+						}
+					}
+					continue
+				}
 			}
 			// an increment of a value derived from the phi through other phis
 			l, ok := lowerBound(e, facts, seen)
@@ -677,7 +695,7 @@ func (p *pfFacts) lenAtLeast(key string, want term) bool {
 	}
 	// want = phi + k where the phi only shrinks from len(key) + k0
 	if phi, ok := want.base.(*ssa.Phi); ok {
-		if k0, ok := phiUpperLen(phi, key); ok && want.k+k0 <= 0 {
+		if k0, ok := phiUpperLenC(p.ctx, phi, key); ok && want.k+k0 <= 0 {
 			return true
 		}
 	}
@@ -701,15 +719,50 @@ func (p *pfFacts) lenAtLeast(key string, want term) bool {
 
 // phiUpperLen: phi ≤ len(key) + k0 by induction (entry edges are len(key)+k, loop edges only decrease).
 func phiUpperLen(phi *ssa.Phi, key string) (int64, bool) {
+	return phiUpperLenC(nil, phi, key)
+}
+
+func phiUpperLenC(c *Ctx, phi *ssa.Phi, key string) (int64, bool) {
 	best := int64(0)
 	have := false
-	for _, e := range phi.Edges {
+	guarded := false
+	for i, e := range phi.Edges {
 		t := termOf(e)
 		if t.base == ssa.Value(phi) {
 			if t.k > 0 {
-				return 0, false
+				// an increment taken only where phi + k ≤ len(key) is known keeps phi ≤ len(key)
+				if c == nil {
+					return 0, false
+				}
+				pf := newPFFacts()
+				pf.absorb(c, Facts(c, phi.Parent()).At(phi.Block().Preds[i]), 0)
+				ok := false
+				for _, g := range pf.lenGE[key] {
+					if g.base == ssa.Value(phi) && g.k >= t.k {
+						ok = true
+					}
+				}
+				if !ok {
+					return 0, false
+				}
+				guarded = true
 			}
 			continue
+		}
+		if c != nil && t.base == nil {
+			// a constant start: ≤ len(key) + (k - 0) only if k ≤ 0 … a non-negative constant needs len ≥ k, which the guard
+			// of the increments does not give at entry: accept 0 only
+			if t.k == 0 {
+				if !have || 0 > best {
+					// 0 ≤ len always: contributes len + (-len) ≤ len + 0
+					have = true
+					if best < 0 {
+						best = 0
+					}
+				}
+				continue
+			}
+			return 0, false
 		}
 		lk, ok := lenKey(t.base)
 		if t.base == nil || !ok || lk != key {
@@ -719,6 +772,7 @@ func phiUpperLen(phi *ssa.Phi, key string) (int64, bool) {
 			best, have = t.k, true
 		}
 	}
+	_ = guarded
 	return best, have
 }
 
@@ -854,6 +908,9 @@ func upperBound(v ssa.Value, facts *pfFacts) (int64, bool) {
 		}
 	case *ssa.Call:
 		if _, hi, ok := apiRange(x); ok {
+			return hi + t.k, true
+		}
+		if _, hi, ok := moduleRange(x, 0); ok {
 			return hi + t.k, true
 		}
 		if args, ok := minLikeArgs(x); ok {
@@ -998,7 +1055,79 @@ func dischargeIndex(c *Ctx, s *indexSite) (string, string, bool) {
 			return cls2, fact2 + " (" + why + ")", true
 		}
 	}
+	// … or about the length relative to an int parameter (every caller passes an index below the length)
+	if ts := inheritedRel(c, s.Fn, s); len(ts) > 0 {
+		inheritedTerms = ts
+		cls2, fact2, ok2 := dischargeIndexWith(c, s, 0)
+		inheritedTerms = nil
+		if ok2 {
+			return cls2, fact2 + " (length relative to a parameter, at every call site)", true
+		}
+	}
 	return cls, fact, ok
+}
+
+var inheritedTerms []term
+
+// inheritedRel: terms q + k (q an int parameter of f) such that len(collection) ≥ arg_q + k holds at every call site
+// of f, for a collection that is itself a parameter (strings and slices handed in are not resized by the callee).
+func inheritedRel(c *Ctx, f *ssa.Function, s *indexSite) []term {
+	key := collKey(s.X)
+	ix := sitesOf(c)
+	if f.Parent() != nil || ix.taken[f] || len(ix.sites[f]) == 0 || (f.Object() != nil && f.Object().Exported()) {
+		return nil
+	}
+	ci := -1
+	for i, p := range f.Params {
+		if key == "P:"+p.Name() {
+			ci = i
+		}
+	}
+	if ci < 0 {
+		return nil
+	}
+	var out []term
+	for qi, q := range f.Params {
+		if !isIntType(q.Type()) {
+			continue
+		}
+		best, have, fail := int64(0), false, false
+		for _, cs := range ix.sites[f] {
+			ff := Facts(c, cs.Fn)
+			if !ff.Reachable(cs.Call.Block()) {
+				continue
+			}
+			args := cs.Call.Common().Args
+			if ci >= len(args) || qi >= len(args) {
+				fail = true
+				break
+			}
+			facts := newPFFacts()
+			facts.ctx = c
+			facts.absorb(c, ff.At(cs.Call.Block()), 0)
+			ckey := collKey(args[ci])
+			at := termOf(args[qi])
+			k, ok := int64(0), false
+			for _, t := range facts.lenGE[ckey] {
+				if t.base == at.base && at.base != nil {
+					if d := t.k - at.k; !ok || d > k {
+						k, ok = d, true
+					}
+				}
+			}
+			if !ok {
+				fail = true
+				break
+			}
+			if !have || k < best {
+				best, have = k, true
+			}
+		}
+		if !fail && have {
+			out = append(out, term{q, best})
+		}
+	}
+	return out
 }
 
 // typeInvariantLen: reviewed invariants attached to a type rather than to one expression (tables/index.json,
@@ -1137,6 +1266,14 @@ func inheritedLen(c *Ctx, f *ssa.Function, s *indexSite, depth int) (int64, stri
 				n = t.k
 			}
 		}
+		// the argument itself has a length known from its type or construction (a slice of a whole array)
+		for i, p := range f.Params {
+			if key == "P:"+p.Name() && i < len(cs.Call.Common().Args) {
+				if sl, ok := staticLen(cs.Call.Common().Args[i]); ok && sl > n {
+					n = sl
+				}
+			}
+		}
 		// the type invariant, seen from the caller
 		for i, p := range f.Params {
 			root := "P:" + p.Name()
@@ -1228,6 +1365,17 @@ func dischargeIndexWith(c *Ctx, s *indexSite, inherited int64) (string, string, 
 	key := collKey(s.X)
 	if inherited > 0 {
 		facts.lenGE[key] = append(facts.lenGE[key], term{nil, inherited})
+	}
+	facts.lenGE[key] = append(facts.lenGE[key], inheritedTerms...)
+	// make([]T, len(y)): as long as y is a value of this function (not a field that can be re-assigned), what is known
+	// about len(y) is known about the new slice
+	if mk, ok := s.X.(*ssa.MakeSlice); ok {
+		if y, ok := lenArg(mk.Len); ok {
+			yk := collKey(y)
+			if !strings.Contains(yk, ".") {
+				facts.lenGE[key] = append(facts.lenGE[key], facts.lenGE[yk]...)
+			}
+		}
 	}
 	if n, _ := typeInvariantLen(c, s.X, ff.At(b)); n > 0 {
 		facts.lenGE[key] = append(facts.lenGE[key], term{nil, n})
@@ -1707,6 +1855,43 @@ func indexLikeResult(c *Ctx, call *ssa.Call) (ssa.Value, bool) {
 		return nil, false
 	}
 	return call.Common().Args[r.idx], true
+}
+
+// moduleRange: the range of a module function's int result when every return is a constant or the result of a call
+// with a documented range.
+func moduleRange(call *ssa.Call, depth int) (int64, int64, bool) {
+	g := call.Common().StaticCallee()
+	if g == nil || len(g.Blocks) == 0 || depth > 2 || g.Signature.Results().Len() != 1 || !isIntType(g.Signature.Results().At(0).Type()) {
+		return 0, 0, false
+	}
+	lo, hi, have := int64(0), int64(0), false
+	for _, b := range g.Blocks {
+		r, ok := b.Instrs[len(b.Instrs)-1].(*ssa.Return)
+		if !ok {
+			continue
+		}
+		var l, h int64
+		if k, ok := constInt(r.Results[0]); ok {
+			l, h = k, k
+		} else if rc, ok := r.Results[0].(*ssa.Call); ok {
+			var ok2 bool
+			if l, h, ok2 = apiRange(rc); !ok2 {
+				if l, h, ok2 = moduleRange(rc, depth+1); !ok2 {
+					return 0, 0, false
+				}
+			}
+		} else {
+			return 0, 0, false
+		}
+		if !have || l < lo {
+			lo = l
+		}
+		if !have || h > hi {
+			hi = h
+		}
+		have = true
+	}
+	return lo, hi, have
 }
 
 // indexAPI: a strings/bytes search whose result r satisfies -1 ≤ r < len(subject); returns the subject.
